@@ -289,6 +289,7 @@ func (c *client) conn() (internalConn, async.Future[internalConn], status.Status
 	}
 
 	// Slow path
+	vgate("cg.slow")
 	c.mu.Lock()
 	defer c.mu.Unlock()
 	defer c.vstate("cl.slow")
